@@ -100,8 +100,7 @@ func (n *TagNode) render(w *trimWriter, ctx nodeContext) Error {
 
 func (n *TextNode) render(w *trimWriter, _ nodeContext) Error {
 	verifhook.Step(verifhook.SiteRenderNode)
-	_, err := io.WriteString(w, n.Source)
-	return wrapRenderError(err, n)
+	return wrapRenderError(w.WriteText(n.Source), n)
 }
 
 func (n *TrimNode) render(w *trimWriter, _ nodeContext) Error {
